@@ -13,7 +13,7 @@
 (* those of JobListAbs (property C12), used read-only.                     *)
 (*                                                                         *)
 (* State  S = [m, t, ps, rel]                                              *)
-(*   m    monitor option (`set -m`) of the run                             *)
+(*   m    monitor option (`set -m` / `set +m`); m0 its value at the start  *)
 (*   t    the job table in the format of JobListAbs (jobs in number order, *)
 (*        cur, prev, by, last = `$!`)                                      *)
 (*   ps   the processes of the three job slots: st in N(ot started),       *)
@@ -50,6 +50,7 @@ CONSTANTS MaxLen,      \* scripts of at most MaxLen commands
           Sigs,        \* signals sent by `kill -s`
           JobsOpts,    \* options of `jobs` without operands ("", "-l", "-p")
           KillLNums,   \* operands of `kill -l`
+          MonCmds,     \* `set -m` (1) / `set +m` (0) commands used by the generated scripts
           FgSlots,     \* slots that may also be started as a foreground job that suspends itself
           StartWith    \* name of the script every generated script starts with ("none", "p3", ...)
 
@@ -79,9 +80,10 @@ MkTab(jobs, c, p, last) == [jobs |-> jobs, cur |-> c, prev |-> p, by |-> ByOf(jo
                             len |-> Len(jobs), ids |-> <<>>]
 EmptyTab == MkTab(<<>>, None, None, 0)
 \* nid identifies the name: the slot for an asynchronous list, slot + 10 for a foreground job
-NewJob(k, pid, st, fg) == [i |-> k, pid |-> pid, st |-> st, ch |-> TRUE, ex |-> "N", own |-> TRUE,
+NewJob(k, pid, st, fg, jc) == [i |-> k, pid |-> pid, st |-> st, ch |-> TRUE, ex |-> "N", own |-> TRUE,
                            name |-> IF fg THEN FgNames[pid] ELSE SlotNames[pid],
                            nid |-> IF fg THEN pid + 10 ELSE pid,
+                           jc |-> jc,      \* job-controlled: job control was on when the job was started
                            code |-> 0, sig |-> IF st = "S" THEN "STOP" ELSE ""]
 \* the exit code / signal detail is not part of the JobListAbs relations
 Proj(t) == [t EXCEPT !.jobs = [k \in DOMAIN t.jobs |-> [t.jobs[k] EXCEPT !.code = 0, !.sig = ""]]]
@@ -114,11 +116,11 @@ UpdTab(t, pid, st, code, sig) ==
 \* A new job.  job_control.md "Job numbers": "assigned sequentially, starting from 1.
 \* After a job is removed, its number may be reused": any unused number up to one more
 \* than the largest in use.
-InsTab(t, pid, st, fg) ==
+InsTab(t, pid, st, fg, jc) ==
   LET used == Idx(t)
       top == IF used = {} THEN -1 ELSE MaxOf(used)
       K == (0..(top + 1)) \ used
-  IN UNION {LET jobs2 == InsSorted(t.jobs, NewJob(k, pid, st, fg))
+  IN UNION {LET jobs2 == InsSorted(t.jobs, NewJob(k, pid, st, fg, jc))
             IN {t2 \in {MkTab(jobs2, cp[1], cp[2], t.last) : cp \in SelOf(jobs2)} :
                   /\ TabInv(t2) /\ StableNumbers(t, t2)
                   /\ Insert(Proj(t), [op |-> "insert", p |-> pid, s |-> st], k, Proj(t2))} : k \in K}
@@ -138,8 +140,8 @@ RemTab(t, R) ==
 -----------------------------------------------------------------------------
 \* Processes
 
-InitS(m) == [m |-> m, t |-> EmptyTab,
-             ps |-> [j \in Slots |-> [st |-> "N", code |-> 0, sig |-> "", ran |-> FALSE, var |-> FALSE]],
+InitS(m) == [m |-> m, m0 |-> m, t |-> EmptyTab,
+             ps |-> [j \in Slots |-> [st |-> "N", code |-> 0, sig |-> "", ran |-> FALSE, var |-> FALSE, jc |-> FALSE]],
              rel |-> [j \in Slots |-> FALSE]]
 
 Alive(p) == p.st \in {"R", "S"}
@@ -167,15 +169,15 @@ Settle(S) ==
      X \in TermAll({S}, {j \in Slots : Pend(S, j)})}
 
 \* Effect of a signal on an alive process that is blocked in its body: set of
-\* <<st, code, sig>>.  XCU 2.12: without job control an asynchronous list ignores
-\* SIGINT and SIGQUIT.
+\* <<st, code, sig>>.  XCU 2.12: an asynchronous list started while job control is
+\* disabled ignores SIGINT and SIGQUIT.
 SigEffect(S, j, sg) ==
   LET p == S.ps[j]
       same == <<p.st, p.code, p.sig>>
   IN CASE sg = "0" -> {same}
        [] sg = "KILL" -> {<<"K", 0, "KILL">>}
        [] sg \in {"TERM", "HUP"} -> {<<"K", 0, sg>>}
-       [] sg \in {"INT", "QUIT"} -> IF S.m THEN {<<"K", 0, sg>>} ELSE {same}
+       [] sg \in {"INT", "QUIT"} -> IF p.jc THEN {<<"K", 0, sg>>} ELSE {same}
        [] sg \in {"STOP", "TSTP"} -> {<<"S", 0, sg>>}
        [] sg = "CONT" -> IF p.st = "S" THEN {<<"R", 0, "">>} ELSE {same}
 \* Not judged (limits of the simulated kernel, not this module's subject):
@@ -241,15 +243,15 @@ NameLine(n, j) == [n |-> n, mk |-> "", pid |-> -1, st |-> "", code |-> 0, sig |-
 
 \* `body &`: XCU 2.9.3.1: new job, `$!` = its process ID, exit status 0
 DoStart(S, c) ==
-  LET S1 == [S EXCEPT !.ps[c.j] = [st |-> "R", code |-> 0, sig |-> "", ran |-> FALSE, var |-> TRUE]]
-  IN {Ok(<<>>, [S1 EXCEPT !.t = [t2 EXCEPT !.last = c.j, !.by = ByOf(t2.jobs)]]) : t2 \in InsTab(S.t, c.j, "R", FALSE)}
+  LET S1 == [S EXCEPT !.ps[c.j] = [st |-> "R", code |-> 0, sig |-> "", ran |-> FALSE, var |-> TRUE, jc |-> S.m]]
+  IN {Ok(<<>>, [S1 EXCEPT !.t = [t2 EXCEPT !.last = c.j, !.by = ByOf(t2.jobs)]]) : t2 \in InsTab(S.t, c.j, "R", FALSE, S.m)}
 
 \* `(selfstop; body)` with job control: a foreground job that is suspended enters the job
 \* table as a suspended job (job_control.md "Suspending foreground jobs"); `$?` is "as if
 \* it had been terminated by the signal that suspended it"; `$!` is not affected.
 DoFgStart(S, c) ==
-  LET S1 == [S EXCEPT !.ps[c.j] = [st |-> "S", code |-> 0, sig |-> "STOP", ran |-> TRUE, var |-> FALSE]]
-  IN {Res(StoppedBySTOP, StoppedBySTOP, "n", <<>>, FALSE, [S1 EXCEPT !.t = t2]) : t2 \in InsTab(S.t, c.j, "S", TRUE)}
+  LET S1 == [S EXCEPT !.ps[c.j] = [st |-> "S", code |-> 0, sig |-> "STOP", ran |-> TRUE, var |-> FALSE, jc |-> TRUE]]
+  IN {Res(StoppedBySTOP, StoppedBySTOP, "n", <<>>, FALSE, [S1 EXCEPT !.t = t2]) : t2 \in InsTab(S.t, c.j, "S", TRUE, TRUE)}
 
 DoRel(S, c) == {Ok(<<>>, [S EXCEPT !.rel[c.j] = TRUE])}
 DoSettle(S, c) == {Ok(<<>>, X) : X \in Settle(S)}
@@ -287,9 +289,14 @@ DoWait(S, c) ==
 \* Which job is current afterwards is left to the invariants ("the current job is
 \* usually the most recently suspended job, or another job if none are suspended").
 Reselect(t) == {t2 \in {MkTab(t.jobs, cp[1], cp[2], t.last) : cp \in SelOf(t.jobs)} : TabInv(t2)}
+\* bg.md "Errors": no such job, a job that is not job-controlled (job control was off when
+\* it was started), job control off now.  A bg that fails resumes nothing: nothing changes,
+\* in particular `$!` ("the (last) RESUMED job's process ID is set to the ! special
+\* parameter") keeps designating the last asynchronous command.
+BgFgRefused(S, r) == ~S.m \/ r.k # "job" \/ ~J(S.t, r.i).jc
 DoBg(S, c) ==
   LET r == Target(S, c)
-  IN IF ~S.m \/ r.k # "job" THEN {Fail(S)}
+  IN IF BgFgRefused(S, r) THEN {Fail(S)}
      ELSE LET p == S.ps[r.j]
               lasts(X) == {[X EXCEPT !.t = [t2 EXCEPT !.last = r.j]] : t2 \in Reselect(X.t)}
           IN IF Dead(p) THEN {Free(X) : X \in lasts(S) \cup {S}}
@@ -299,7 +306,7 @@ DoBg(S, c) ==
 \* fg.md / XCU fg: continue, wait, report the job's status; a finished job is removed
 DoFg(S, c) ==
   LET r == Target(S, c)
-  IN IF ~S.m \/ r.k # "job" THEN {Fail(S)}
+  IN IF BgFgRefused(S, r) THEN {Fail(S)}
      ELSE LET p == S.ps[r.j]
               S1 == IF p.st = "S" THEN SetProc(S, r.j, "R", 0, "") ELSE {S}
               S2 == IF Dead(p) THEN S1 ELSE UNION {SetProc(X, r.j, "E", ExitOf(r.j), "") : X \in S1}
@@ -311,8 +318,8 @@ DoFg(S, c) ==
 DoKill(S, c) ==
   LET op == c.ops[1]
       r == ResolveOp(S, op)
-  IN IF IsJobId(op) /\ ~S.m THEN {Fail(S)}               \* the job is not job-controlled
-     ELSE IF r.k \in {"none", "amb", "nopid"} THEN {Fail(S)}
+  IN IF r.k \in {"none", "amb", "nopid"} THEN {Fail(S)}
+     ELSE IF IsJobId(op) /\ ~J(S.t, r.i).jc THEN {Fail(S)}      \* the job is not job-controlled
      ELSE IF Dead(S.ps[r.j]) THEN {Free(S)}              \* (not judged, see Unspec)
      ELSE UNION {{Ok(<<>>, X) : X \in SetProc(S, r.j, e[1], e[2], e[3])} : e \in SigEffect(S, r.j, c.sig)}
 
@@ -329,6 +336,7 @@ Do(S, c) ==
   CASE c.k = "start"  -> DoStart(S, c)
     [] c.k = "killl"  -> DoKillL(S, c)
     [] c.k = "fgstart" -> DoFgStart(S, c)
+    [] c.k = "mon"    -> {Ok(<<>>, [S EXCEPT !.m = (c.j = 1)])}      \* `set -m` / `set +m`
     [] c.k = "rel"    -> DoRel(S, c)
     [] c.k = "settle" -> DoSettle(S, c)
     [] c.k = "jobs"   -> DoJobs(S, c)
@@ -350,7 +358,7 @@ Unspec(S, c) ==
   \/ c.k = "kill" /\ Len(c.ops) # 1
   \/ c.k = "killl" /\ c.j # 0 /\ SigOfNum(c.j) = "" /\ (c.j <= 384 \/ SigOfNum(c.j - 384) = "")
   \/ c.k = "kill" /\ LET r == ResolveOp(S, c.ops[1])
-                      IN r.k \in {"job", "proc"} /\ (IsJobId(c.ops[1]) => S.m)
+                      IN r.k \in {"job", "proc"} /\ (IsJobId(c.ops[1]) => J(S.t, r.i).jc)
                          /\ (Dead(S.ps[r.j]) \/ SigUnspec(S, r.j, c.sig))
   \/ c.k = "wait" /\ Len(c.ops) > 1
        /\ \E a, b \in DOMAIN c.ops : a # b /\ LET ra == ResolveOp(S, c.ops[a])
@@ -361,13 +369,13 @@ Unspec(S, c) ==
 \* shell is stuck in.  A process that is stopped, or running an unreleased body, never ends.
 Hang(S, c) ==
   CASE c.k = "fgstart" ->      \* without job control the shell goes on waiting for the stopped child
-         IF S.m THEN {} ELSE {[S EXCEPT !.ps[c.j] = [st |-> "S", code |-> 0, sig |-> "STOP", ran |-> TRUE, var |-> FALSE]]}
+         IF S.m THEN {} ELSE {[S EXCEPT !.ps[c.j] = [st |-> "S", code |-> 0, sig |-> "STOP", ran |-> TRUE, var |-> FALSE, jc |-> FALSE]]}
     [] c.k = "wait" ->
          IF (\E k \in DOMAIN c.ops : ResolveOp(S, c.ops[k]).k = "amb") THEN {}
          ELSE IF \E i \in WaitJobs(S, c) : ~WillEnd(S, J(S.t, i).pid) THEN {S} ELSE {}
     [] c.k = "fg" ->
          LET r == Target(S, c)
-         IN IF ~S.m \/ r.k # "job" \/ Dead(S.ps[r.j]) \/ S.rel[r.j] THEN {}
+         IN IF BgFgRefused(S, r) \/ Dead(S.ps[r.j]) \/ S.rel[r.j] THEN {}
             ELSE IF S.ps[r.j].st = "S" THEN SetProc(S, r.j, "R", 0, "") ELSE {S}
     [] OTHER -> {}
 
@@ -384,7 +392,7 @@ Stuck(S, c) == UNION {UNION {Sync(Y) : Y \in Hang(S1, c)} : S1 \in Sync(S)}
 ObsTab(S) == [k \in DOMAIN S.t.jobs |->
                 LET x == S.t.jobs[k]
                 IN [n |-> x.i + 1, pid |-> x.pid, st |-> x.st, code |-> x.code, sig |-> x.sig,
-                    nm |-> x.nid, jc |-> S.m]]
+                    nm |-> x.nid, jc |-> x.jc]]
 MatchObs(r, o) ==
   /\ o.st >= r.lo /\ o.st <= r.hi
   /\ (r.err = "?" \/ (r.err = "y") = o.err)
@@ -439,6 +447,7 @@ Cmds ==
   \cup {Cmd("bg", 0, "", "", <<id>>) : id \in JobIdOps} \cup {Cmd("fg", 0, "", "", <<id>>) : id \in JobIdOps}
   \cup {Cmd("kill", 0, s, "", <<o>>) : s \in Sigs, o \in AnyOps}
   \cup {Cmd("killl", n, "", "", <<>>) : n \in KillLNums}
+  \cup {Cmd("mon", b, "", "", <<>>) : b \in MonCmds}
 
 VARIABLES S,     \* specification state
           h,     \* the script that led to it (hidden by the VIEW)
@@ -536,9 +545,9 @@ NumbersStable == [][StableNumbers(S.t, S'.t)]_vars
 \* One line per distinct state: the witness script and the commands to try in it.
 EmitState ==
   IF Len(h) < Lim
-  THEN PrintT(ToJson([m |-> S.m, h |-> h, next |-> {c \in Cmds : Usable(S, c)}]))
+  THEN PrintT(ToJson([m |-> S.m0, h |-> h, next |-> {c \in Cmds : Usable(S, c)}]))
   ELSE TRUE
 \* Simulation mode (random longer scripts): one line per completed random walk.
 EmitWalk ==
-  IF Len(h) = Lim THEN PrintT(ToJson([m |-> S.m, h |-> h, next |-> {}])) ELSE TRUE
+  IF Len(h) = Lim THEN PrintT(ToJson([m |-> S.m0, h |-> h, next |-> {}])) ELSE TRUE
 =============================================================================
